@@ -251,6 +251,7 @@ func (in *Interp) tryHostCall(name string, recvMethod string, args []Value) (Val
 	} else {
 		res = fv.Call(hargs)
 	}
+	in.steps += hostCost(name, recvMethod, args, res)
 	// write back in-place mutations of slices (e.g. sort.Strings)
 	for i, a := range args {
 		if xs, ok := a.([]Value); ok && hargs[i].Kind() == reflect.Slice {
@@ -273,3 +274,45 @@ func (in *Interp) tryHostCall(name string, recvMethod string, args []Value) (Val
 }
 
 var _ = fmt.Sprint
+
+// hostCost: cost model for library functions executed natively, so that the step bound and the
+// linear-time checks also see the work done inside them. Scanning functions are charged the
+// number of bytes they look at (up to the match for the Index family), prefix/suffix tests the
+// length of the prefix, decoding of one rune a constant; anything else (regexp methods included)
+// one step per byte of its string and slice arguments.
+func hostCost(name, method string, args []Value, res []reflect.Value) int {
+	size := func(v Value) int {
+		switch x := v.(type) {
+		case string:
+			return len(x)
+		case []Value:
+			return len(x)
+		}
+		return 0
+	}
+	total := 0
+	for _, a := range args {
+		total += size(a)
+	}
+	if method != "" {
+		// regexp Find*Index methods stop at the end of the first match
+		if len(res) == 1 && res[0].Kind() == reflect.Slice && res[0].Type().Elem().Kind() == reflect.Int && res[0].Len() >= 2 {
+			return int(res[0].Index(1).Int()) + 1
+		}
+		return total
+	}
+	switch name {
+	case "strings.HasPrefix", "strings.HasSuffix", "strings.TrimPrefix", "strings.TrimSuffix", "strings.EqualFold":
+		if len(args) == 2 {
+			return size(args[1]) + 1
+		}
+	case "strings.Index", "strings.IndexByte", "strings.IndexRune", "strings.IndexAny", "strings.Contains", "strings.ContainsAny", "strings.ContainsRune":
+		if len(res) == 1 && res[0].Kind() == reflect.Int && res[0].Int() >= 0 && len(args) > 0 {
+			return int(res[0].Int()) + total - size(args[0]) + 1
+		}
+	case "unicode/utf8.DecodeRuneInString", "unicode/utf8.DecodeRune", "unicode/utf8.DecodeLastRuneInString", "unicode/utf8.RuneLen",
+		"unicode/utf8.ValidRune", "unicode/utf8.FullRune", "unicode/utf8.AppendRune":
+		return 1
+	}
+	return total
+}
